@@ -199,7 +199,7 @@ def write_evidence(prop, tier, seed, total, wall, workers, m, audit,
         "violations": n_violations,
     }
     path = os.path.join(HERE, "evidence", f"{prop}.json")
-    with open(path, "w") as fp:
+    with open(path, "w", encoding="utf-8") as fp:
         json.dump(evidence, fp, indent=1, ensure_ascii=False, default=str)
 
 
